@@ -11,6 +11,7 @@ mod regs;
 mod lexer;
 mod nodes;
 mod decode;
+mod values;
 
 pub fn geti(v: &serde_json::Value, k: &str) -> Option<i64> {
     v.get("inputs")?.get(k)?.as_i64()
@@ -27,6 +28,7 @@ fn main() {
         Some("ops-math-op") => ops::math_op(&v),
         Some("ops-scalar-op") => ops::scalar_op(&v),
         Some("ops-search") => ops::search(&v),
+        Some("values-search") => values::search(&v),
         Some("decode-search") => decode::search(&v),
         Some("getany-search") => nodes::getany_search(&v),
         Some("genkill-search") => nodes::genkill_search(&v),
